@@ -9,11 +9,14 @@ case (kind=rx): `msg=<msgspec> calls=<item>+<item>… / <item>… / -`   (one re
                  item = `F.<typ>.<total>.<seq>.<off>.<len>.<bodyspec>` | `R.<hex>`
   observed    : `res=<r>/<r>… pend=<seq>:<total>:<datalen>:<masklen>,…|- hand=<bytes left in handBuf>`
                  r = `m:<enc>@<pending buffers>` | `e:<toolong|oob|mismatch|toomany|needmore|other>@<n>`
+                 optional `clk=<clock>`: the Config.Time of the receiving Conn (`w` | `w+N` | `w-N` | `p` | `r` | `j` | `jp`,
+                 see `clockOk`); not an input of the prediction
 case (kind=tx): `pmtu=<int> seq=<message_seq> msg=<msgspec>`
   observed    : `max=<maxPayload> recs=<12-byte header hex>:<enc body>,… rt=<m:enc|e:kind> keep=<0|1>`
                  (keep: marshal() of the message object after the write is still the unfragmented encoding)
                | `max=<maxPayload> err=<short|pmtu|other> sent=<datagrams>`
 case (kind=e2e): `suite=<ecc-gcm|ecc-cbc|ecdhe-gcm|ecdhe-cbc> cp=<client PMTU> sp=<server PMTU>`  one real handshake
+                 optional `cclk=<clock> sclk=<clock>`: Config.Time of the client / the server (default: pinned)
   observed    : `hs=ok cs=<version>.<suite>.<resumed>.<peer certs at client>.<at server> same=<both ends agree>
                  fin=<both ends recorded the same Finished values> bigC=<largest handshake body the client sent> bigS=<… server>`
                | `hs=fail bigC=… bigS=…`      (bigC/bigS depend on certificates: inputs to the model, echoed)
@@ -279,7 +282,23 @@ def specRx (m : Bytes) (calls : List (List Item)) (obs : List String) : Option (
     | _, _ => some ("shape", "number of results differs from the number of calls")
   go [] [] calls obs false
 
+/-- an injected clock (`Config.Time`) of a case: `w` the wall clock, `w+N` / `w-N` the wall clock shifted by
+N seconds, `p` pinned, `r` running from another epoch, `j` / `jp` jumping by an hour call by call. The
+clock is NOT an input of the model's prediction nor of the spec: reassembly must not depend on the
+configured clock at all (a pending buffer may be dropped only when real time ≥ the stale timeout passes
+between two fragments, which never happens inside a case; `C17_cleanup_offset_free`,
+`C17_cleanup_keeps_recent`, `C17_facts_one_clock`). The oracle only checks that the token is well formed. -/
+def clockOk (s : String) : Bool :=
+  s == "w" || s == "p" || s == "r" || s == "j" || s == "jp" ||
+    ((s.startsWith "w+" || s.startsWith "w-") && ((String.ofList (s.toList.drop 2)).toNat?).isSome)
+
+def clockTokOk (ct : List String) (key : String) : Bool :=
+  match kv ct key with
+  | some k => clockOk k
+  | none => true
+
 def judgeRX (ct ot : List String) : Option Verdict := do
+  guard (clockTokOk ct "clk")
   let m ← (kv ct "msg").bind parseMsg
   let callsStr ← kv ct "calls"
   let calls ← (callsStr.splitOn "/").mapM (parseCall m)
@@ -418,6 +437,7 @@ def specWorkable (pmtu : Int) (isCBC : Bool) (big : Nat) : Bool :=
   p ≥ (if isCBC then 77 else 50) && big ≤ FragmentSpec.maxFragmentIterations * (p - 25)
 
 def judgeE2E (ct ot : List String) : Option Verdict := do
+  guard (clockTokOk ct "cclk" && clockTokOk ct "sclk")
   let (id, c, isCBC, isECDHE) ← (kv ct "suite").bind suiteOf
   let cp ← (kv ct "cp").bind parseInt
   let sp ← (kv ct "sp").bind parseInt
